@@ -25,25 +25,28 @@ def confirm(pid, k, src=None):
     m = re.search(r"-run\s+(\S+)", head)
     test = m.group(1)
     pkg = "./" + os.path.dirname(rel) + "/"
+    mt = re.search(r"-tags\s+(\w+)", head)
+    tags = ("-tags " + mt.group(1) + " ") if mt else ""
     wt = f"/tmp/seedconf-{pid}{k}"
     sh(f"git -C /repo worktree remove --force {wt}")
     rc, out = sh(f"git -C /repo worktree add --detach {wt} HEAD")
     res = {"property": pid, "variant": k, "base": sh("git -C /repo rev-parse --short HEAD")[1].strip(), "commands": []}
     try:
         shutil.copy(demo, os.path.join(wt, rel))
-        cmd_demo = f"go test -vet=off -count=1 -run '^{test}$' {pkg}"
+        cmd_demo = f"go test {tags}-vet=off -count=1 -run '^{test}$' {pkg}"
         rc0, o0 = sh(cmd_demo, cwd=wt)
         res["demo_passes_without_change"] = rc0 == 0
         rc, o = sh(f"git apply {src}/patch.diff", cwd=wt)
         res["patch_applies"] = rc == 0
         if rc != 0:
             res["apply_output"] = o[-500:]
-        rc, o = sh("go build ./server/...", cwd=wt)
+        rc, o = sh("go build ./server/..." + (f" && go build {tags} {pkg}" if tags else ""), cwd=wt)
         res["builds_with_change"] = rc == 0
         rc1, o1 = sh(cmd_demo, cwd=wt)
         res["demo_fails_with_change"] = rc1 != 0
         res["demo_output_with_change"] = o1[-800:]
         os.remove(os.path.join(wt, rel))
+        sh("git checkout -- go.mod go.sum", cwd=wt)
         rc2, o2 = sh("go test -vet=off -count=1 ./server/ ./server/db/common ./server/drafty ./server/ringhash ./server/store/... ./server/auth/... ./server/media/... ./server/push/... ./server/validate/... 2>&1 | grep -v 'no test files'", cwd=wt)
         res["suite_passes_with_change"] = ("FAIL" not in o2) and ("ok" in o2)
         res["suite_output"] = o2[-600:]
